@@ -93,8 +93,8 @@ func vpC30Auth(call vpC30Call, msg []byte) (r vpC30Result) {
 }
 
 func TestVP_C30_authenticate(t *testing.T) {
-	c := kit.New(t, "C30", "rapid: signer key from 64 drawn seed bytes, random network and recipient ids, relayer flag byte in {0,1,2,255}, timeout in {10 (handshake), 5, 30, 600, 0 and -1 (freshness disabled by the caller)}, timestamp = now + {0, ±(timeout-2s), ±(timeout+2s), ±1 day, 0, 2^63, 2^64-1}; message from BuildAuthenticationMessage or from the harness assembler with one optional defect (wrong recipient, self, foreign signer, flag outside the signature, signature over another recipient, zero signature, wrong length); the receiver is one node object with a real memory cache for the whole case; every accepted message is then mutated, on that same node (after its cache settled), at each of the 137 bytes with 3 xor masks, truncated and extended; non-trivial = accepted message (with its full mutation sweep) or a single-defect twin; distinct by message bytes")
-	c.Require("accepted", "accepted:built", "accepted:assembled", "reject:stale-past", "reject:stale-future", "reject:recipient", "reject:self", "reject:foreign-signer", "reject:flag-unsigned", "reject:length", "accepted:timeout-disabled-old", "mutant-rejected", "flag:relayer", "flag:plain")
+	c := kit.New(t, "C30", "rapid: signer key from 64 drawn seed bytes, random network and recipient ids, relayer flag byte in {0,1,2,255}, timeout in {10 (handshake), 5, 30, 600, 0 and -1 (freshness disabled by the caller)}, timestamp = now + {0, ±(timeout-2s), ±(timeout+2s), ±1 day, 0, 2^63, 2^64-1}; message from BuildAuthenticationMessage or from the harness assembler with one optional defect (wrong recipient incl. the all-zero and all-ones id, self, foreign signer, flag outside the signature, signature over another recipient, zero signature, wrong length); the receiver is one node object with a real memory cache for the whole case; every accepted message is then mutated, on that same node (after its cache settled), at each of the 137 bytes with 3 xor masks, truncated and extended; non-trivial = accepted message (with its full mutation sweep) or a single-defect twin; distinct by message bytes")
+	c.Require("accepted", "accepted:built", "accepted:assembled", "reject:stale-past", "reject:stale-future", "reject:recipient", "reject:recipient-zero", "reject:self", "reject:foreign-signer", "reject:flag-unsigned", "reject:length", "accepted:timeout-disabled-old", "mutant-rejected", "flag:relayer", "flag:plain")
 	c.Assume("the wall clock advances less than 2 s between the harness reading it and AuthenticateAs reading it; cases where more than 1 s elapsed across the call are discarded (class clock-moved)")
 	kit.SetChecks(kit.N(300, 20000))
 	rapid.Check(t, func(t *rapid.T) {
@@ -174,6 +174,7 @@ func TestVP_C30_authenticate(t *testing.T) {
 		msgRecipient := recipient
 		callRecipient := recipient
 		signKey := signer.PrivateSpendKey
+		specialRecipient := ""
 		signedLen := 73
 		sigOK := true
 		switch defect {
@@ -181,6 +182,19 @@ func TestVP_C30_authenticate(t *testing.T) {
 			copy(msgRecipient[:], rapid.SliceOfN(rapid.Byte(), 32, 32).Draw(t, "other_recipient"))
 			if msgRecipient == recipient {
 				msgRecipient[0] ^= 1
+			}
+			switch rapid.IntRange(0, 3).Draw(t, "recipient_special") {
+			case 0: // addressed to nobody
+				msgRecipient = crypto.Hash{}
+				specialRecipient = "reject:recipient-zero"
+			case 1: // addressed to everybody
+				for i := range msgRecipient {
+					msgRecipient[i] = 0xff
+				}
+				specialRecipient = "reject:recipient-ones"
+			}
+			if msgRecipient == recipient {
+				msgRecipient[31] ^= 1
 			}
 		case "self":
 			msgRecipient, callRecipient = selfId, selfId
@@ -265,6 +279,9 @@ func TestVP_C30_authenticate(t *testing.T) {
 				classes = append(classes, "reject:stale-future")
 			case defect == "recipient":
 				classes = append(classes, "reject:recipient")
+				if specialRecipient != "" {
+					classes = append(classes, specialRecipient)
+				}
 			case defect == "self":
 				classes = append(classes, "reject:self")
 			default:
